@@ -1,4 +1,5 @@
 import Rare.Proofs.C04
+import Rare.Proofs.C04Buf
 /-!
 # C04 — line splitting is exact; returned line buffers are never overwritten
 
@@ -105,6 +106,79 @@ theorem splitLines_no_nl (data : Bytes) : ∀ l ∈ splitLines data, nl ∉ l :=
       · exact ih [] (by simp) l hl
     · rename_i hb
       exact ih (cur ++ [b]) (by simp; exact ⟨hc, fun e => hb e.symm⟩) l hl
+
+/-! ## BufferedReadAhead (`pkg/readahead/buffered.go`; `NewBuffered` requires `maxBufLen > 1`) -/
+
+def Buf.run (maxBufLen : Nat) (data : Bytes) (script : List Step) : List (View × Bytes) × Bool × Buf :=
+  let fuel := data.length + script.length + 3
+  Buf.scanAll fuel fuel (Buf.init maxBufLen ⟨data, script⟩)
+
+private theorem brun_good (m : Nat) (data : Bytes) (script : List Step) (h : 2 ≤ m) :
+    BGood (Buf.init m ⟨data, script⟩) [] := bgood_init _ _ h
+
+/-- The buffered scanner always runs to completion. -/
+theorem buf_terminates (m : Nat) (data : Bytes) (script : List Step) (h : 2 ≤ m) :
+    (Buf.run m data script).2.1 = true := by
+  apply bscanAll_done _ data _ (brun_good m data script h)
+  · simp [Buf.init]
+  · simp [Buf.init, Reader.measure]; omega
+  · simp [Buf.init, Buf.consumed]; omega
+
+/-- Its tokens are exactly the lines of the bytes the reader delivered (everything read before an
+    error included), and those bytes are a prefix of the stream. -/
+theorem buf_tokens_eq_split (m : Nat) (data : Bytes) (script : List Step) (h : 2 ≤ m) :
+    (Buf.run m data script).1.map (·.2) = splitLines (Buf.run m data script).2.2.delivered ∧
+    (Buf.run m data script).2.2.delivered <+: data := by
+  have hg := brun_good m data script h
+  have hdone := buf_terminates m data script h
+  constructor
+  · have := bscanAll_good _ (by omega) _ hg hdone
+    simp only [List.nil_append] at this
+    exact this.symm
+  · have := bscanAll_closed (bclosed_stream data) (data.length + script.length + 3) (by omega)
+      (data.length + script.length + 3) hg (by simp [Buf.init])
+    exact ⟨_, this⟩
+
+/-- With a reader that reports no error early, every chunking yields the lines of the whole stream. -/
+theorem buf_chunking_independent (m : Nat) (data : Bytes) (script : List Step) (h : 2 ≤ m)
+    (hs : ∀ st ∈ script, st.err = none) :
+    (Buf.run m data script).1.map (·.2) = splitLines data := by
+  have hg := brun_good m data script h
+  have hdone := buf_terminates m data script h
+  have hstream := bscanAll_closed (bclosed_stream data) (data.length + script.length + 3) (by omega)
+      (data.length + script.length + 3) hg (by simp [Buf.init])
+  have hdr := bscanAll_closed bclosed_drained (data.length + script.length + 3) (by omega)
+      (data.length + script.length + 3) hg (s := Buf.init m ⟨data, script⟩)
+      ⟨by simpa [Buf.init] using hs, by simp [Buf.init]⟩
+  have heof := bscanAll_eof _ (by omega) _ hg hdone
+  have hrest := hdr.2 heof
+  have hd : (Buf.run m data script).2.2.delivered = data := by
+    have := hstream
+    unfold Buf.run
+    rw [hrest] at this; simpa using this
+  rw [(buf_tokens_eq_split m data script h).1, hd]
+
+/-- Slices handed out by the buffered scanner keep their contents (each refill allocates a new array). -/
+theorem buf_tokens_stable (m : Nat) (data : Bytes) (script : List Step) (h : 2 ≤ m) :
+    ∀ vb ∈ (Buf.run m data script).1,
+      readView (Buf.run m data script).2.2.arrays vb.1 = vb.2 :=
+  bscanAll_views _ (by omega) _ (brun_good m data script h)
+
+/-- The error callback fires at most once, only together with the end of the stream, and never without
+    a failing read. -/
+theorem buf_error_once (m : Nat) (data : Bytes) (script : List Step) (h : 2 ≤ m) :
+    ((Buf.run m data script).2.2.errs = 0 ∨
+      ((Buf.run m data script).2.2.errs = 1 ∧ (Buf.run m data script).2.2.eof = true)) ∧
+    ((∀ st ∈ script, st.err ≠ some .fail) → (Buf.run m data script).2.2.errs = 0) := by
+  have hg := brun_good m data script h
+  constructor
+  · exact bscanAll_closed bclosed_errs _ (by omega) _ hg (Or.inl (by simp [Buf.init]))
+  · intro hs
+    exact (bscanAll_closed bclosed_nofail _ (by omega) _ hg (s := Buf.init m ⟨data, script⟩)
+      ⟨by simpa [Buf.init] using hs, by simp [Buf.init]⟩).2
+
+example : (Buf.run 2 [97, 13, 10, 10, 98, 98, 98, 10, 99] [⟨1, none⟩, ⟨0, none⟩, ⟨5, none⟩]).1.map (·.2)
+    = [[97], [], [98, 98, 98], [99]] := by decide
 
 /-- Non-vacuity: a concrete stream with CRLF, an empty line, a line longer than the buffer, a
     stalled read and an injected failure alongside data. -/
